@@ -81,6 +81,20 @@ template <class T, class V> static void patterns (Gen<T>& g, int n, int e)
     // generic mantissas at the same exponent
     for (int i = 0; i < n; ++i) x[i] = val (e);
     one<T> (x, n);
+    // one dominant component and the others far below it, down to the smallest subnormals, in every order of magnitudes
+    // (a scaling by anything but the largest component would overflow or vanish)
+    {
+        const T dm = std::numeric_limits<T>::denorm_min ();
+        for (int k = 0; k < n; ++k)
+        {
+            for (int i = 0; i < n; ++i) x[i] = (T) 0;
+            x[k] = val (e);
+            int j = (k + 1 + (int) g.rng.below ((uint32_t) (n - 1))) % n;
+            x[j] = (g.rng.below (2) ? dm : -dm) * (T) (1 + g.rng.below (3));
+            if (n > 2 && g.rng.below (2)) { int q = 3 - k - j; if (q >= 0 && q < n && q != k && q != j) x[q] = dm; }
+            one<T> (x, n);
+        }
+    }
 }
 
 template <class T> static void all (uint64_t seed, int count)
